@@ -261,6 +261,12 @@ func run(r *core.Run) {
 	r.Assume("a load that succeeds never hands back an error value anywhere inside its result (checked on every accepted document, unspecified zones included). UNSPECIFIED: a container with more members than the runtime's allocation cap (Runtime.MaxAlloc) - refused, not as json:syntax-error, or loaded as plain data")
 	r.Assume("invalid documents must be rejected in every mode; the condition must be json:syntax-error unless :string-numbers is in force (the statement names only the default and :exact-integers modes)")
 
+	if os.Getenv("C13_ONLY") == "O" { // development switch: the object-history part alone
+		x.runObjHistories()
+		x.finish()
+		return
+	}
+
 	// ----- H: dump histories (child process + in-process sub-space)
 	waitHistories := x.startHistories()
 
@@ -462,9 +468,17 @@ func run(r *core.Run) {
 		return doc, toks
 	}, dl, 4)
 
+	// ----- O: object histories (one object, repeated loads under changing options, results mutated in between)
+	x.runObjHistories()
+
 	waitHistories()
 
-	// ----- outcome classes (exact counts)
+	x.finish()
+}
+
+// finish emits the outcome classes (exact counts).
+func (x *explorer) finish() {
+	r := x.r
 	var keys []string
 	for k := range x.outcomes {
 		keys = append(keys, k)
